@@ -78,18 +78,18 @@ impl Monitor for C02 {
         let mut strict = GenCfg::std(&['a', 'b', 'a', 'b', 'A', '\u{10400}', ' ']);
         strict.no_nullable_quant = true;
         strict.backrefs = false;
-        let mut weak = GenCfg::std(STD_ALPHA);
-        weak.backrefs = false;
+        let weak = GenCfg::std(STD_ALPHA);
         for k in 0..n {
-            let ast = match k % 4 {
-                0 | 1 => gen_choice_shape(&mut rng, &strict),
-                2 => gen_pattern(&mut rng, &strict),
+            let ast = match k % 8 {
+                0 | 1 | 2 => gen_choice_shape(&mut rng, &strict),
+                3 | 4 => gen_pattern(&mut rng, &strict),
+                5 => gen_line_shape(&mut rng, &['a', 'b', '#']),
                 _ => gen_pattern(&mut rng, &weak),
             };
             if ast.nullable() && rng.chance(9, 10) {
                 continue;
             }
-            let fl = *rng.pick(&["", "", "", "i", "s", "m", "ms"]);
+            let fl = if k % 8 == 5 { *rng.pick(&["m", "m", "ms", "im"]) } else { *rng.pick(&["", "", "", "i", "s", "m", "ms"]) };
             for _ in 0..3 {
                 let mut inp = gen_input(&mut rng, &ast, &['a', 'b', '\u{10400}', '\n', ' '], 10);
                 if rng.chance(1, 3) {
@@ -190,7 +190,16 @@ fn gen_backref_shape(rng: &mut Rng) -> Node {
         3 => Node::Cat(vec![rep(grp(any(rng)), 1, None, rng.chance(1, 2)), Node::Backref(1)]),
         4 => Node::Cat(vec![rep(Node::NcGroup(Box::new(Node::Cat(vec![grp(any(rng)), Node::Backref(1)]))), 1, Some(3), true), ch(rng)]),
         // nested groups
-        5 => Node::Cat(vec![grp(Node::Cat(vec![grp(any(rng)), any(rng)])), Node::Backref(2), Node::Backref(1)]),
+        5 => {
+            if rng.chance(1, 2) {
+                Node::Cat(vec![grp(Node::Cat(vec![grp(any(rng)), any(rng)])), Node::Backref(2), Node::Backref(1)])
+            } else {
+                // a capture nested in a repeated fixed-length non-capturing cluster, with give-back
+                let cluster = Node::NcGroup(Box::new(Node::Cat(vec![ch(rng), grp(any(rng))])));
+                let q = *rng.pick(&[(1, None), (0, None), (1, Some(3)), (2, None)]);
+                Node::Cat(vec![rep(cluster, q.0, q.1, true), ch(rng), any(rng), Node::Backref(1)])
+            }
+        }
         // quantified back-reference
         6 => Node::Cat(vec![grp(any(rng)), rep(Node::Backref(1), rng.below(2), None, rng.chance(1, 2)), ch(rng)]),
         _ => {
@@ -313,7 +322,7 @@ impl Monitor for C19 {
 pub struct C11;
 
 /// alphabets of letters with one-to-one simple case mappings, mixed with case-less characters
-pub const CI_LETTERS: &[char] = &['a', 'b', 'K', 'Z', 'à', 'É', 'þ', 'α', 'Ω', 'д', 'Ж', '\u{10400}', '\u{10428}'];
+pub const CI_LETTERS: &[char] = &['a', 'b', 'Z', 'à', 'É', 'þ', 'α', 'Λ', 'г', 'Ж', '\u{10400}', '\u{10428}', 'ѐ', 'Ш'];
 pub const CI_CASELESS: &[char] = &['1', ' ', '\n', '-', '_', '%'];
 
 fn ci_alphabet() -> Vec<char> {
@@ -366,10 +375,17 @@ impl Monitor for C11 {
             Some(a) => a,
             None => return Outcome::Inconclusive("no_ast"),
         };
-        if c.flags.contains('i') && !ast.ranges_case_regular() {
-            // a range that covers characters with one-to-many / many-to-one case mappings (e.g. the
-            // OHM SIGN inside [д-𐐀]) is outside the property's quantifier
-            return Outcome::Inconclusive("range_covers_irregular_case_mappings");
+        if c.flags.contains('i') {
+            // the property quantifies over letters with one-to-one simple case mappings: every input
+            // character and every literal character of the pattern (incl. range end points) must be
+            // case-less or a member of a pair that no third character folds into. Ranges may then
+            // cover anything: for such an input character x, x is in the case closure of a range iff
+            // x or its partner lies in the range.
+            let mut lits = vec![];
+            ast.alphabet(&mut lits);
+            if lits.iter().chain(c.input.chars().collect::<Vec<_>>().iter()).any(|x| !crate::uoracle::case_regular(*x)) {
+                return Outcome::Inconclusive("character_with_irregular_case_mapping");
+            }
         }
         // (a) differential
         let o = ref_check(c, obs, Wants { is_match: true, spans: true, ..Default::default() });
@@ -448,13 +464,7 @@ impl Monitor for C11 {
         cfg.props = true;
         let extra: Vec<char> = alpha.clone();
         for k in 0..n {
-            let mut ast = if k % 3 == 0 { gen_shortcut(&mut rng, &cfg) } else { gen_pattern(&mut rng, &cfg) };
-            for _ in 0..8 {
-                if ast.ranges_case_regular() {
-                    break;
-                }
-                ast = gen_pattern(&mut rng, &cfg);
-            }
+            let ast = if k % 3 == 0 { gen_shortcut(&mut rng, &cfg) } else { gen_pattern(&mut rng, &cfg) };
             let fl = *rng.pick(&["i", "i", "i", "is", "im", ""]);
             for _ in 0..3 {
                 let inp = gen_input(&mut rng, &ast, &extra, 8);
@@ -553,8 +563,8 @@ impl Monitor for C12 {
         cfg.props = false;
         cfg.backrefs = false;
         let short = all_inputs(&['a', 'b', '\n', '\r'], 3);
-        for _ in 0..n {
-            let mut ast = gen_pattern(&mut rng, &cfg);
+        for k in 0..n {
+            let mut ast = if k % 5 == 4 { gen_line_shape(&mut rng, &['a', 'b']) } else { gen_pattern(&mut rng, &cfg) };
             // force an anchor or dot at a random position
             let size = ast.size();
             let mut at = rng.below(size) as isize;
